@@ -369,7 +369,12 @@ impl Gen {
             if wts.invite > 0 {
                 let outsiders: Vec<usize> = (0..w.nodes.len())
                     .filter(|n| !members.contains(n) && !w.nodes[*n].key_packages.is_empty())
-                    .filter(|n| w.gview(*n, g).is_none())
+                    // never held the group, or was removed / left and processed that (re-invitation)
+                    .filter(|n| {
+                        w.gview(*n, g).is_none()
+                            || (!self.cfg.guards.contains("no_reinvite")
+                                && w.gview(*n, g).and_then(|v| v.record.as_ref()).map(|r| r.state == "inactive").unwrap_or(false))
+                    })
                     .filter(|n| !(self.cfg.guards.contains("no_reinvite") && self.invited.contains(n)))
                     .collect();
                 if !outsiders.is_empty() {
